@@ -240,6 +240,43 @@ def run(ctx):
                 return plist(np.asarray(y).ravel().astype(int).tolist())
             add('matvec %s %s %s' % (sdesc, plist(X.ravel().astype(int).tolist()), plist(x.astype(int).tolist())),
                 f, ('matvec', bs, bidx))
+            # results handed out belong to the caller: two products with the same matrix, the first result is
+            # kept and must still be what it was; the data tensor is
+            # given Fortran-ordered / as a transposed-back view
+            x2 = rng.integers(-3, 4, size=N).astype(float)
+            # (x itself stays C-contiguous: the 2/3-level kernels are typed `double[::1]` and refuse a strided
+            #  vector with a clear ValueError -- observed, not a wrong answer, not reported)
+            Xl = np.asfortranarray(X) if rng.integers(0, 2) else np.ascontiguousarray(X.T).T
+
+            def f():
+                Ml = mlmatrix.MLMatrix(structure=S, data=Xl)
+                y1 = Ml.dot(x); keep = np.array(y1, copy=True)
+                y2 = Ml.dot(x2)
+                if not np.array_equal(np.asarray(y1), keep):
+                    return 'err-first-result-changed-by-second-product'
+                return plist(np.asarray(y2).ravel().astype(int).tolist())
+            add('matvec %s %s %s' % (sdesc, plist(X.ravel().astype(int).tolist()), plist(x2.astype(int).tolist())),
+                f, ('matvec', bs, bidx))
+        # MLMatrix(structure, matrix=A): the data tensor is A at the layout positions, whatever the stored order of
+        # the patterns (dense and sparse initialisers; patterns without repeated positions)
+        if all(len(set(p)) == len(p) for p in bidx):
+            Aden = dense_of(bs, bidx, X)
+            for sparse_init in (False, True):
+                def f(sparse_init=sparse_init):
+                    import scipy.sparse
+                    Ain = scipy.sparse.csr_matrix(Aden) if sparse_init else Aden
+                    if sparse_init and rng.integers(0, 2):
+                        Ain = Ain.tocoo()
+                        perm = rng.permutation(Ain.nnz)
+                        Ain = scipy.sparse.coo_matrix((Ain.data[perm], (Ain.row[perm], Ain.col[perm])), shape=Ain.shape).tocsr()
+                    Mm = mlmatrix.MLMatrix(structure=S, matrix=Ain)
+                    if tuple(Mm.data.shape) != shape:
+                        return 'err-datashape'
+                    if not np.array_equal(np.asarray(Mm.data, dtype=float), X):
+                        return 'err-data-tensor-is-not-the-matrix-at-the-layout-positions'
+                    A = Mm.asmatrix('coo').tocsr(); A.sum_duplicates(); A.eliminate_zeros(); Ac = A.tocoo()
+                    return plist(sorted(zip(Ac.row.tolist(), Ac.col.tolist(), Ac.data.tolist())), lambda t: '%d,%d,%d' % (t[0], t[1], int(t[2])))
+                add('asmat %s %s' % (sdesc, plist(X.ravel().astype(int).tolist())), f, ('asmat-from-matrix', bs, bidx, X.ravel().tolist()))
         # reorder / transpose at structure level: compare their nonzero() with the model applied to permuted input
         if L >= 2:
             axes = [int(a) for a in rng.permutation(L)]
@@ -536,6 +573,14 @@ def run(ctx):
         # dense reorder(X, m1, n1): Y[i, j] = X[reindex_from_reordered(i, j)] (positions from the model)
         m1, n1, m2, n2 = (int(v) for v in rng.integers(1, 4, size=4))
         Xd = np.arange(m1 * m2 * n1 * n2, dtype=float).reshape(m1 * m2, n1 * n2)       # entry value = its ravelled position
+        lay = int(rng.integers(0, 4))       # memory layout of the argument: C, Fortran, transposed view, strided view
+        if lay == 1:
+            Xd = np.asfortranarray(Xd)
+        elif lay == 2:
+            Xd = np.ascontiguousarray(Xd.T).T
+        elif lay == 3:
+            big = np.zeros((2 * Xd.shape[0], 3 * Xd.shape[1])); big[::2, ::3] = Xd; Xd = big[::2, ::3]
+        ctx.count('vlp-reorder layout %d' % lay)
         Yd = mlmatrix.reorder(Xd, m1, n1)
         i, j = int(rng.integers(0, m1 * n1)), int(rng.integers(0, m2 * n2))
         pos = int(Yd[i, j]); add('rfr %d %d %d %d %d %d' % (i, j, m1, n1, m2, n2), '%d %d' % (pos // (n1 * n2), pos % (n1 * n2)), ('vlp-reorder', m1, n1, m2, n2, i, j))
